@@ -257,7 +257,7 @@ int cif_loop_set_category(cif_loop_tp *loop, const UChar *category) {
             }
 
             /* failed -- clean up */
-            DROP_STMT(cif, get_loop_names);
+            DROP_STMT(cif, set_loop_category);
             free(category_temp);
 
             FAILURE_TERMINUS;
